@@ -21,7 +21,9 @@ CONSTANTS
   History,      \* TRUE: keep the input sequence in `doc` (bounded / simulation configs)
   MaxLen,       \* bound on Len(doc) when History
   EmitMode,     \* "none" | "graph" (one document per sampled transition) | "docs"
-  SampleMod, SamplePick   \* graph mode: emit when Hash(state, symbol) % SampleMod = SamplePick
+  SampleMod, SamplePick,  \* graph mode: emit when Hash(state, symbol) % SampleMod = SamplePick
+  ValidOnly     \* TRUE: random walks take only steps that keep the document acceptable to the scan stage
+                \* (and use no MACRO / PASTE), so that long well-nested documents reach the later stages
 
 VARIABLES chain, pend, st, doc
 vars == <<chain, pend, st, doc>>
@@ -124,12 +126,19 @@ Eof ==
      ELSE /\ chain' = Flushed /\ pend' = NoDir
           /\ st' = IF HasOpenParen(Flushed) THEN "err_eof" ELSE "done"
 
+\* guards of the "valid only" walks
+Placeable(k, p) == /\ k \notin {"MACRO", "PASTE", "JSIGHT"}
+                   /\ Flushed # RejectCh
+                   /\ Walk(Flushed, [k |-> k, x |-> FALSE, p |-> p, id |-> 0]) # RejectCh
 Next ==
   \/ /\ (History => Len(doc) < MaxLen)
-     /\ \/ \E s \in KwSyms : Keyword(s.k, s.p)
-        \/ Open
-        \/ Close
-  \/ Eof
+     /\ \/ (~ValidOnly /\ \E s \in KwSyms : Keyword(s.k, s.p))
+        \* valid-only walks: ONE random placeable keyword, so that "(" and ")" are taken as often as keywords
+        \/ (ValidOnly /\ {s \in KwSyms : Placeable(s.k, s.p)} # {}
+             /\ LET s == RandomElement({x \in KwSyms : Placeable(x.k, x.p)}) IN Keyword(s.k, s.p))
+        \/ ((ValidOnly => pend # NoDir /\ AdmitsOf(pend.k) # {}) /\ Open)
+        \/ ((ValidOnly => Flushed # RejectCh /\ HasOpenParen(Flushed)) /\ Close)
+  \/ ((ValidOnly => Len(doc) >= MaxLen) /\ Eof)
 
 Spec == Init /\ [][Next]_vars
 
@@ -251,7 +260,7 @@ EmitGraph ==
 \* docs mode: emit the history of every terminal behaviour or of every behaviour at the bound
 EmitDocs ==
   (EmitMode = "docs" /\ History /\ st \in {"done", "err_eof", "rej_ctx", "err_close", "err_open"}) =>
-     EmitDoc(doc)
+     EmitDoc(IF ValidOnly THEN doc \o Closers(NParens(chain, NoDir)) ELSE doc)
 
 Emit == EmitGraph /\ EmitDocs
 =============================================================================
